@@ -127,6 +127,12 @@ def steady_state_transport_solver(
         logger.info("Setting both equal.")
         nlx, nly = min(nlx, nxe), min(nly, nye)
 
+    # symmetric truncation needs an even number of dropped modes per axis
+    if ((nxe - nlx) % 2 > 0) or ((nye - nly) % 2 > 0):
+        raise ValueError(
+            "padded grid size minus number of modes must be even in each direction."
+        )
+
     # Deltas for truncated Fourier transform
     dlx, dly = (nxe - nlx) // 2, (nye - nly) // 2
 
